@@ -216,3 +216,14 @@ impl StorageRecords {
         record.index != 0 && self.records[record.index as usize].index == record.index
     }
 }
+
+#[cfg(agdb_verif)]
+impl StorageRecords {
+    pub fn verif_records(&self) -> Vec<(u64, u64, u64)> {
+        self.records.iter().map(|r| (r.index, r.pos, r.size)).collect()
+    }
+
+    pub fn verif_free_regions(&self) -> Vec<(u64, u64)> {
+        self.free_pos_size.iter().map(|(p, s)| (*p, *s)).collect()
+    }
+}
